@@ -1,5 +1,5 @@
 ENGINES = [
-    {"name": "pyscan", "path": "vt/", "serves_properties": ["C20"],
+    {"name": "pyscan", "path": "vt/", "serves_properties": ["C19", "C20"],
      "kind_free_text": "runtime monitoring of the real Python scanner modules imported from /repo's working tree: recorded events judged by independent reference models, icontract invariants on live objects"},
 ]
 NOTES = "All checks: ./check <id> --tier quick|thorough [--seed N]; VERIF_SEED/VERIF_TIER honoured. Exit 0 held / 1 VIOLATION / 2 INCONCLUSIVE. See DESIGN.md."
@@ -7,3 +7,7 @@ NOTES = "All checks: ./check <id> --tier quick|thorough [--seed N]; VERIF_SEED/V
 add('C20', 'pyscan', 'runtime monitoring: generated XMLWriter operation sequences, output judged by two independent XML parsers against the reference tree + icontract invariant on the live writer',
     'held on the executions produced: every generated operation sequence (incl. exceptions inside nested tagcontexts, wrapped/unwrapped attribute lists, whitespace on/off) produced a document that expat and minidom parse back to exactly the reference tree; live invariant _indent==unit*len(stack) after every public call',
     'trusted: expat/minidom; names restricted to NCNames; XML-1.0 Char alphabet only', 'DESIGN.md 4 C20')
+
+add('C19', 'pyscan', 'runtime monitoring: icontract postcondition (reference model without regexes) on the real resolve_from_ldd_output + harness oracle for the SystemExit path + real subprocess path through resolve_shlibs/ldd_wrapper and libtool archives',
+    'held on the executions produced: for every generated listing/request list respecting the side condition the real function returned exactly the reference files or raised SystemExit naming every unresolved library; upstream shlibs tests re-run with the contract on',
+    'trusted: the 20-line reference predicate; listings use LF/CRLF and blank/tab separators; names without "/"', 'DESIGN.md 4 C19')
